@@ -9,11 +9,11 @@ import (
 	"fmt"
 	"io"
 	"math/rand"
+	"os"
+	"path/filepath"
 	"reflect"
 	"runtime"
 	"strconv"
-	"os"
-	"path/filepath"
 	"strings"
 	"sync"
 	"sync/atomic"
